@@ -20,6 +20,12 @@
    same name is created between the release of the name and handle_object_removed of the previous
    incarnation.  It is checked on every thread-level schedule by Corr.lifecycle_ok.
 
+   Connections: [n_peers] holds the router's local ALIASES (peer name for an outgoing connection, "$client_N"
+   for an incoming one); a connection is (context, alias); IPeerRemoved x = handle_peer_context_removed(x) is
+   told the alias of the connection that closed and touches nothing that belongs to another connection
+   (Corr.peer_notice_ok checks the argument on real schedules).  In sys2 / sysN there is one connection per
+   pair of contexts, so alias = peer name.
+
    Granularity: one step = one handler invocation (one lock region followed by its sends), except
    publish_signal which is split at its lock regions: snapshot of local receivers / one
    _receive_signal per receiver / snapshot of remote subscribers / one send per peer.
